@@ -412,6 +412,26 @@ class CallsMixin:
         if it.ty[0] == "range":
             lo, hi = it.py
             return z3.If(hi - lo > 0, hi - lo, 0), (lambda s, i: V(("int",), lo + i)), ("int",)
+        if it.ty[0] == "dictvalues":
+            # iteration over D.values(): some fixed enumeration of the keys (keyat / idxof are mutually inverse between [0, n) and the domain);
+            # the i-th value is D[keyat(i)], read in the state at hand (the loop body is expected not to write D: frame obligations check it)
+            dct = it.py
+            kty, vty = dct.ty[1], dct.ty[2]
+            ks = sort_of(kty)
+            cnt = z3.Function("dict_size_" + str(ks), z3.ArraySort(ks, z3.BoolSort()), z3.IntSort())
+            dom = st.dict_dom(dct); n = cnt(dom)
+            keyat = z3.Function(fresh_name("keyat"), z3.IntSort(), ks); idxof = z3.Function(fresh_name("idxof"), ks, z3.IntSort())
+            i = z3.Int(fresh_name("i_dv")); k = z3.Const(fresh_name("k_dv"), ks)
+            st.assume(n >= 0)
+            st.assume(z3.ForAll([i], z3.Implies(z3.And(0 <= i, i < n), z3.And(z3.Select(dom, keyat(i)), idxof(keyat(i)) == i))))
+            st.assume(z3.ForAll([k], z3.Implies(z3.Select(dom, k), z3.And(0 <= idxof(k), idxof(k) < n, keyat(idxof(k)) == k))))
+            st.assume((n == 0) == z3.ForAll([k], z3.Not(z3.Select(dom, k))))
+
+            def at(s, j):
+                v = V(vty, z3.Select(s.dict_val(dct), keyat(j)))
+                s.assume_alloc(v, s.dict_arrays(dct.ty)[1])
+                return v
+            return n, at, vty
         if it.ty[0] == "dictitems":
             raise Unsupported("generic iteration over dict items")
         if it.ty[0] == "dyn":
